@@ -59,7 +59,7 @@ struct Monitor
         codec = codec_;
         cap = cap_;
         strict = strict_;
-        M = gs::markers(codec_);
+        M = gsref::golden(codec_);
     }
     std::string key() const
     {
